@@ -307,6 +307,8 @@ function __t(id, v) { console.log("t" + id + ":" + __show(v)); return v; }
 pub struct Program {
     /// body with decoration markers (no prelude)
     pub marked: String,
+    /// the same body, but completing with the raw array of top-level variables instead of its printed form
+    pub marked_raw: String,
     pub tags: Vec<String>,
     pub excluded: BTreeMap<String, u32>,
 }
@@ -317,6 +319,9 @@ impl Program {
     }
     pub fn body_js(&self) -> String {
         render_plain(&self.marked)
+    }
+    pub fn js_raw(&self) -> String {
+        format!("{}{}", SHOW_PRELUDE, render_plain(&self.marked_raw))
     }
 }
 
@@ -342,10 +347,11 @@ pub fn gen_script(tape: &mut Tape, gates: &Gates, cfg: Config) -> Program {
         .unwrap_or_default();
     let fin = if vars.is_empty() { "__show(0)".to_string() } else { format!("__show([{}])", vars.join(", ")) };
     let body = lines.join("\n");
-    let marked = if g.cfg.self_contained {
-        format!("(function () {{\n{}\nreturn {};\n}})()", body, fin)
+    let fin_raw = format!("[{}]", vars.join(", "));
+    let (marked, marked_raw) = if g.cfg.self_contained {
+        (format!("(function () {{\n{}\nreturn {};\n}})()", body, fin), format!("(function () {{\n{}\nreturn {};\n}})()", body, fin_raw))
     } else {
-        format!("{}\n{}", body, fin)
+        (format!("{}\n{}", body, fin), format!("{}\n{}", body, fin_raw))
     };
-    Program { marked, tags: g.tags.into_iter().collect(), excluded: g.excluded }
+    Program { marked, marked_raw, tags: g.tags.into_iter().collect(), excluded: g.excluded }
 }
